@@ -43,6 +43,7 @@ type Case struct {
 	PaceUs      int        `json:"pace_us"`             // producer pause every 16 rows
 	Sentinel    bool       `json:"sentinel"`            // direct kinds: after the producers, a sentinel row must still be delivered before Stop
 	HookSeed    uint64     `json:"hook_seed,omitempty"` // seed of the engine's build-tag-guarded perturbation points (0 = off)
+	Where       int        `json:"where,omitempty"`     // shape of the (always true) WHERE predicate: 0 shortcut comparison, 1-3 forms the general evaluator has to run
 }
 
 var registerOnce sync.Once
@@ -104,7 +105,22 @@ func genCase(t *rapid.T) Case {
 	c.PaceUs = rapid.SampledFrom([]int{0, 0, 20, 200}).Draw(t, "pace")
 	c.Sentinel = (c.Kind == "direct" || c.Kind == "analytic") && rapid.Bool().Draw(t, "sentinel")
 	c.HookSeed = hookSeed(t)
+	c.Where = rapid.IntRange(0, 3).Draw(t, "where")
 	return c
+}
+
+// whereOf: predicates that hold for every generated row (ids are >= 0); forms 1-3 are not answered by the
+// 'column OP literal' shortcuts, so concurrent EmitSync callers and the processing goroutine share the compiled program.
+func whereOf(c Case) string {
+	switch c.Where {
+	case 1:
+		return "(id >= 0)"
+	case 2:
+		return "id >= 0 AND (v >= -100000 OR id == 1)"
+	case 3:
+		return "k LIKE 'zz%' OR id >= 0"
+	}
+	return "id >= 0"
 }
 
 func sqlOf(c Case) string {
@@ -115,10 +131,13 @@ func sqlOf(c Case) string {
 	switch c.Kind {
 	case "direct":
 		if c.PanicRow {
-			return "SELECT id, c18boom(v) AS b FROM stream WHERE id >= 0"
+			return "SELECT id, c18boom(v) AS b FROM stream WHERE " + whereOf(c)
 		}
-		return "SELECT id, v * 2 AS w FROM stream WHERE id >= 0"
+		return "SELECT id, v * 2 AS w FROM stream WHERE " + whereOf(c)
 	case "analytic":
+		if c.Where > 0 {
+			return "SELECT id, lag(v) OVER (PARTITION BY k) AS lv FROM stream WHERE " + whereOf(c)
+		}
 		return "SELECT id, lag(v) OVER (PARTITION BY k) AS lv FROM stream"
 	case "cep":
 		return "SELECT * FROM stream MATCH_RECOGNIZE ( PARTITION BY k ORDER BY ts MEASURES FIRST(id) AS f, LAST(id) AS l, COUNT(*) AS n ONE ROW PER MATCH AFTER MATCH SKIP PAST LAST ROW PATTERN (A B+) DEFINE A AS v > 5, B AS v <= 5 )"
@@ -129,6 +148,9 @@ func sqlOf(c Case) string {
 	case "session":
 		return "SELECT k, count(*) AS c FROM stream GROUP BY k, SessionWindow('100ms')" + with
 	case "counting":
+		if c.Where > 0 {
+			return "SELECT k, count(*) AS c FROM stream WHERE " + whereOf(c) + " GROUP BY k, CountingWindow(3)"
+		}
 		return "SELECT k, count(*) AS c FROM stream GROUP BY k, CountingWindow(3)"
 	default:
 		return "SELECT k, count(*) AS c, max(v) AS m FROM stream GROUP BY k, GLOBAL WINDOW TRIGGER WHEN count(*) >= 4"
